@@ -41,6 +41,9 @@ func newContext() *runtime {
 
 	rt.newContext()
 
+	// Annex B.2.6: Date.prototype.toGMTString is the same function object as Date.prototype.toUTCString.
+	rt.global.DatePrototype.property["toGMTString"] = rt.global.DatePrototype.property["toUTCString"]
+
 	rt.eval = rt.globalObject.property["eval"].value.(Value).value.(*object)
 	rt.globalObject.prototype = rt.global.ObjectPrototype
 
